@@ -99,7 +99,9 @@ impl<'a> Tape<'a> {
                 x ^= x << 13;
                 x ^= x >> 17;
                 x ^= x << 5;
-                (x >> 11) as u8
+                // never 0x00..=0x1F: read as a length marker those would announce 4-8 byte vints, i.e. (when payload bytes get
+                // parsed as headers after a mutation) declared sizes of many MiB that the harness then has to steer around
+                0x20 + ((x >> 11) % 0xE0) as u8
             })
             .collect()
     }
